@@ -39,6 +39,7 @@ type MPCase struct {
 	G         int      `json:"goroutines"`
 	UseBefore bool     `json:"useBefore,omitempty"`
 	Transform bool     `json:"transform,omitempty"`
+	Rounds    int      `json:"rounds,omitempty"` // protocol rounds per goroutine in the parallel part (0 = 1)
 }
 
 func (c MPCase) RandSeed() uint64 { return c.Seed }
@@ -51,7 +52,11 @@ var mpKinds = []string{"multiparty.PublicKeyGenProtocol", "multiparty.KeySwitchP
 func genMPCase(t *rapid.T) MPCase {
 	var c MPCase
 	c.Kind = mpKinds[rapid.IntRange(0, len(mpKinds)-1).Draw(t, "kind")]
-	c.LogN = rapid.IntRange(4, 6).Draw(t, "logN")
+	lo, hi := bigLogN(t, 4, 6)
+	if hi > 8 {
+		lo, hi = 7, 8
+	}
+	c.LogN = rapid.IntRange(lo, hi).Draw(t, "logN")
 	m := uint64(2) << c.LogN
 	nq := rapid.IntRange(2, 3).Draw(t, "nQ")
 	np := rapid.IntRange(1, 2).Draw(t, "nP")
@@ -78,6 +83,7 @@ func genMPCase(t *rapid.T) MPCase {
 	c.G = pick(t, "goroutines", 1, 2, 3, 4, 8)
 	c.UseBefore = rapid.Bool().Draw(t, "useBefore")
 	c.Transform = rapid.Bool().Draw(t, "transform")
+	c.Rounds = rapid.IntRange(1, 3).Draw(t, "rounds")
 	return c
 }
 
@@ -87,6 +93,7 @@ type mpSubject struct {
 	round    func(obj any) string // complete protocol round, "ok" or a description of what went wrong
 	feats    []string
 	skip     []string
+	inputs   []any // secret keys, public keys, ciphertexts, plaintexts handed to the rounds: must never change
 }
 
 func (c MPCase) spec(q []uint64) h.RLWESpec {
@@ -129,6 +136,7 @@ func buildMP(c MPCase) (*mpSubject, error) {
 			return nil, err
 		}
 		bound := 3*noiseBound(p) + int64(8*6*c.Sigma) + int64(p.N())*int64(6*c.Sigma+20) + 256
+		s.inputs = []any{sk, sk2, pk2, pt, ct}
 		switch c.Kind {
 		case "multiparty.PublicKeyGenProtocol":
 			o := multiparty.NewPublicKeyGenProtocol(p)
@@ -295,6 +303,7 @@ func buildMP(c MPCase) (*mpSubject, error) {
 		if err != nil {
 			return nil, err
 		}
+		s.inputs = []any{sk, skOut, pt, ct}
 		same := func(got []uint64, want []uint64) string {
 			for i := range want {
 				if got[i] != want[i] {
@@ -449,6 +458,7 @@ func buildMP(c MPCase) (*mpSubject, error) {
 		if err != nil {
 			return nil, err
 		}
+		s.inputs = []any{sk, skOut, pt, ct}
 		// 2^30 scale, flooding sigma <= 64, N <= 64: errors stay far below 2^-8
 		closeTo := func(pp ckks.Parameters, key *rlwe.SecretKey, out *rlwe.Ciphertext, want []complex128) string {
 			got := make([]complex128, len(want))
@@ -633,16 +643,60 @@ func runMP(c MPCase, rec *h.Rec) error {
 	if c.Kind == "mpckks.MaskedLinearTransformationProtocol.WithParams" {
 		name = c.Kind
 	}
-	round := func(obj any) string { return safe(func() string { return s.round(obj) }) }
-	if r := round(s.orig); r != "ok" {
+	// variants: the same protocol configuration with other secrets, ciphertexts, levels, Galois elements and CRPs. The
+	// original works on variant 0, the copy on variant 1, goroutine i on variants i, i+1, ...: a scratch area shared
+	// between two instances then sees different data (identical data would hide the sharing from every dynamic oracle).
+	build := func() ([]*mpSubject, error) {
+		nv := 2
+		if c.G > nv {
+			nv = c.G
+		}
+		if nv > 4 {
+			nv = 4
+		}
+		vs := make([]*mpSubject, nv)
+		for v := range vs {
+			cv := c
+			cv.Seed = c.Seed + uint64(v)*0x9e3779b97f4a7c15
+			cv.Level = (c.Level + v) % len(c.Q)
+			var err error
+			if vs[v], err = buildMP(cv); err != nil {
+				return nil, err
+			}
+		}
+		return vs, nil
+	}
+	vs, err := build()
+	if err != nil {
+		rec.Class("rejected")
+		return nil
+	}
+	s = vs[0]
+	round := func(obj any, v int) string { return safe(func() string { return vs[v%len(vs)].round(obj) }) }
+	inputsDigest := func() string {
+		var sb strings.Builder
+		for _, v := range vs {
+			for _, in := range v.inputs {
+				sn := takeSnapshot(in)
+				for _, p := range sn.order {
+					fmt.Fprintf(&sb, "%x.", sn.nodes[p].hash)
+				}
+			}
+		}
+		return hashBytes([]byte(sb.String()))
+	}
+	in0 := inputsDigest()
+	if r := round(s.orig, 0); r != "ok" {
 		// the scenario itself must be valid before anything is said about the copy
-		return h.Failf(fmt.Sprintf("C10:%s:reference-round", name), "%s: protocol round on the original: %s", name, r)
+		return h.Failf(fmt.Sprintf("C10:harness:%s:reference-round", name), "%s: protocol round on the original: %s", name, r)
 	}
 	if !c.UseBefore {
 		// rebuild so that the copy is taken from an unused original
-		if s, err = buildMP(c); err != nil {
+		if vs, err = build(); err != nil {
 			return nil
 		}
+		s = vs[0]
+		in0 = inputsDigest()
 	}
 	// (1) configuration
 	tmpPtIssue := false
@@ -662,7 +716,13 @@ func runMP(c MPCase, rec *h.Rec) error {
 	}
 	// (2) behaviour + (3) independence
 	before := takeSnapshot(s.orig)
-	r := round(s.cp)
+	r := round(s.cp, 1)
+	if r == "ok" {
+		r = round(s.cp, 0) // second use of the copy, on the original's data
+	}
+	if r == "ok" {
+		r = round(s.cp, 1)
+	}
 	after := takeSnapshot(s.orig)
 	if r != "ok" {
 		key := fmt.Sprintf("C10:%s:behaviour:%s", name, keyPart(r))
@@ -679,7 +739,7 @@ func runMP(c MPCase, rec *h.Rec) error {
 	for _, d := range compareState(before, after, clsCache) {
 		return h.Failf(fmt.Sprintf("C10:%s:original-changed:%s", name, stripIdx(d.path)), "%s: using the copy changed the original at %q", name, d.path)
 	}
-	if r2 := round(s.orig); r2 != "ok" {
+	if r2 := round(s.orig, 0); r2 != "ok" {
 		return h.Failf(fmt.Sprintf("C10:%s:original-broken:%s", name, keyPart(r2)), "%s: round on the original after the copy was used: %s", name, r2)
 	}
 	// (4) concurrency
@@ -690,7 +750,18 @@ func runMP(c MPCase, rec *h.Rec) error {
 		}
 		objs = objs[:c.G]
 		res := make([]string, len(objs))
-		n, site, report := raceWatch(func() { parallel(len(objs), func(i int) { res[i] = round(objs[i]) }) })
+		rounds := c.Rounds
+		if rounds < 1 {
+			rounds = 1
+		}
+		n, site, report := raceWatch(func() {
+			parallel(len(objs), func(i int) {
+				res[i] = "ok"
+				for k := 0; k < rounds && res[i] == "ok"; k++ {
+					res[i] = round(objs[i], i+k)
+				}
+			})
+		})
 		if n > 0 {
 			return h.Failf("C10:race@"+site, "%s: %d data race(s) with %d goroutines, each using its own copy:\n%s", name, n, len(objs), report)
 		}
@@ -700,6 +771,9 @@ func runMP(c MPCase, rec *h.Rec) error {
 			}
 		}
 		rec.Classf("G=%d", len(objs))
+	}
+	if in1 := inputsDigest(); in1 != in0 {
+		return h.Failf(fmt.Sprintf("C10:%s:inputs-modified", name), "%s: a protocol round modified a secret key, public key, plaintext or ciphertext it was given", name)
 	}
 	rec.Class("kind=" + name)
 	for _, f := range s.feats {
@@ -718,6 +792,6 @@ func keyPart(r string) string {
 	return r
 }
 
-var propMP = h.NewProp("TestPropMultipartyCopy", h.Budget{Quick: 240, Thorough: 9600}, genMPCase, runMP)
+var propMP = h.NewProp("TestPropMultipartyCopy", h.Budget{Quick: 240, Thorough: 4800}, genMPCase, runMP)
 
 func TestPropMultipartyCopy(t *testing.T) { propMP.Check(t) }
